@@ -126,14 +126,37 @@ Proof. exact truncation_refuted. Qed.
 Print Assumptions C04_truncating_ancestor_refuted.
 
 (* 11. The exported functions on printed valid IDs, and their error paths. *)
+(* `merge_ext_api` runs the code-level merge `merge64` (threshold computed with two wrapping int64 multiplications, as the Go code does);
+   `fits64 H V l` = the threshold exponent 2*max(0,MH-H) + max(0,MV-V) is at most 62, i.e. the int64 product does not wrap *)
 Theorem C04_MergeExtendedSpatialIds_on_valid_ids :
-  forall l H V, 0 <= H <= 35 -> 0 <= V <= 35 -> (forall i, In i l -> valid i) ->
+  forall l H V, 0 <= H <= 35 -> 0 <= V <= 35 -> (forall i, In i l -> valid i) -> fits64 H V l ->
   merge_ext_api (map print_eid l) H V = Ok (map print_eid (merge_x H V l)).
 Proof. exact merge_ext_api_ok. Qed.
 Print Assumptions C04_MergeExtendedSpatialIds_on_valid_ids.
 
+(* any accepted spelling of the IDs ("+1", "007", "-0"): the function works on the parsed records and prints canonically *)
+Theorem C04_MergeExtendedSpatialIds_any_spelling :
+  forall s l H V, 0 <= H <= 35 -> 0 <= V <= 35 -> parse_all s = Some l ->
+  merge_ext_api s H V = Ok (map print_eid (merge_x64 H V l)).
+Proof. exact merge_ext_api_parsed. Qed.
+Print Assumptions C04_MergeExtendedSpatialIds_any_spelling.
+
+(* the int64 threshold: within the bound the code-level merge IS the mathematical merge of theorems 1-9 (same list, any order) *)
+Theorem C04_int64_threshold_within_bound :
+  forall ord H V ids, fits64 H V ids -> merge64 ord H V ids = merge ord H V ids.
+Proof. exact merge64_merge. Qed.
+Print Assumptions C04_int64_threshold_within_bound.
+
+(* beyond the bound the wrapped threshold is 0 or -2^63, so the code merges no non-empty group there; on the mathematical side a
+   target voxel with 2^63 or more unit cells could only be filled by that many enumerated cells (outside any int64-indexed run):
+   this coincidence is an assumption of the run-time check (meta assumption 1), not a theorem *)
+Theorem C04_int64_threshold_beyond_bound :
+  forall H V MH MV, 0 <= MH - H -> 0 <= MV - V -> 63 <= 2 * (MH - H) + (MV - V) -> thr64 H V MH MV <= 0.
+Proof. exact thr64_big. Qed.
+Print Assumptions C04_int64_threshold_beyond_bound.
+
 Theorem C04_MergeSpatialIds_on_valid_ids :
-  forall l z, 0 <= z <= 35 -> (forall i, In i l -> valid i /\ ev i = eh i) ->
+  forall l z, 0 <= z <= 35 -> (forall i, In i l -> valid i /\ ev i = eh i) -> fits64 z z l ->
   merge_sid_api (map print_sid l) z = Ok (map print_sid (merge_x z z l)).
 Proof. exact merge_sid_api_ok. Qed.
 Print Assumptions C04_MergeSpatialIds_on_valid_ids.
@@ -174,26 +197,26 @@ Print Assumptions C04_checker_sound.
 Theorem C04_verdict_meaning :
   forall l H V o, 0 <= H <= 35 -> 0 <= V <= 35 -> (forall i, In i l -> valid i) ->
   (prop_ext (map print_eid l) H V (of_LS o) = true <->
-   exists oo, parse_all o = Some oo /\ NoDup oo /\ forall x, In x oo <-> S H V (fun i => In i l) x).
+   exists oo, parse_all o = Some oo /\ map print_eid oo = o /\ NoDup oo /\ forall x, In x oo <-> S H V (fun i => In i l) x).
 Proof. exact prop_ext_correct. Qed.
 Print Assumptions C04_verdict_meaning.
 
 Theorem C04_verdict_accepts_the_model :
-  forall l H V, 0 <= H <= 35 -> 0 <= V <= 35 -> (forall i, In i l -> valid i) ->
-  prop_ext (map print_eid l) H V (of_LS (map print_eid (merge_x H V l))) = true.
+  forall l H V, 0 <= H <= 35 -> 0 <= V <= 35 -> (forall i, In i l -> valid i) -> fits64 H V l ->
+  prop_ext (map print_eid l) H V (of_LS (map print_eid (merge_x64 H V l))) = true.
 Proof. exact prop_ext_accepts_model. Qed.
 Print Assumptions C04_verdict_accepts_the_model.
 
 
-(* ---- 13. The exported merge helpers as stand-alone API (theories/MergeHelpers.v: maps are heap cells, so the aliasing created by
-   NewHighSpatialID — it keeps its argument's unit map by reference — is part of the model) ---- *)
+(* ---- 13. The exported merge helpers as stand-alone API (theories/MergeHelpers.v: maps are heap cells; NewHighSpatialID copies its argument's
+   unit map into a fresh cell, /repo 06056a1) ---- *)
 (* NewUnitDividedSpatialID with the differences the merge passes enumerates exactly Merge.units *)
 Theorem C04_NewUnitDividedSpatialID_is_units : forall MH MV i, units_d i (MH - eh i) (MV - ev i) = units MH MV i.
 Proof. exact units_d_units. Qed.
 Print Assumptions C04_NewUnitDividedSpatialID_is_units.
 
-(* r.Merge(a): the receiver holds the union; the ARGUMENT's unit set keeps exactly its members; an object that does not share the
-   receiver's map is literally untouched; an object that shares it sees the union *)
+(* r.Merge(a) on any heap: the receiver's cell holds the union, the argument's unit set keeps exactly its members, cells other than
+   the receiver's are untouched *)
 Theorem C04_Merge_union_and_argument_unchanged : forall s r a, (g_map (nth r (highs s) high0) < List.length (heap s))%nat ->
   hunits (merge_op s r a) r = uunion (hunits s r) (hunits s a) /\
   (forall c, In c (hunits (merge_op s r a) r) <-> In c (hunits s r) \/ In c (hunits s a)) /\
@@ -202,6 +225,33 @@ Theorem C04_Merge_union_and_argument_unchanged : forall s r a, (g_map (nth r (hi
   (forall k, g_map (nth k (highs s) high0) = g_map (nth r (highs s) high0) -> hunits (merge_op s r a) k = uunion (hunits s r) (hunits s a)).
 Proof. exact merge_op_spec. Qed.
 Print Assumptions C04_Merge_union_and_argument_unchanged.
+
+(* since /repo 06056a1 NewHighSpatialID copies its argument's unit map: every constructed object owns its map (`fresh_maps`), this
+   is kept by Merge, and therefore r.Merge(a) changes NO other object: not the argument, not another HighSpatialID (even one built
+   from the same unit object), not any UnitDividedSpatialID *)
+Theorem C04_constructed_objects_own_their_maps :
+  (forall us hs, fresh_maps (init_st us hs)) /\ (forall s r a, fresh_maps s -> fresh_maps (merge_op s r a)).
+Proof. exact (conj init_fresh merge_op_fresh). Qed.
+Print Assumptions C04_constructed_objects_own_their_maps.
+
+(* since /repo 24349d1 NewUnitDividedSpatialID keeps its own copy of the *ExtendedSpatialID argument: setters on the constructed
+   unit object (SetX, SetZoom) never change an argument object, and change only that unit's own copy *)
+Theorem C04_constructed_units_own_their_ID :
+  (forall s sp, orig (set_unit s sp) = orig s) /\
+  (forall us sets, orig (run_sets us sets) = map (fun '(i, _, _) => i) us) /\
+  (forall s j x hz vz, (j < List.length (own s))%nat ->
+     nth j (own (set_unit s (j, x, hz, vz))) (mk 0 0 0 0 0) =
+       (let i := nth j (own s) (mk 0 0 0 0 0) in {| eh := hz; ex := x; ey := ey i; ev := vz; ef := ef i |}) /\
+     forall k, k <> j -> nth k (own (set_unit s (j, x, hz, vz))) (mk 0 0 0 0 0) = nth k (own s) (mk 0 0 0 0 0)).
+Proof. exact (conj set_unit_orig (conj run_sets_orig set_unit_own)). Qed.
+Print Assumptions C04_constructed_units_own_their_ID.
+
+Theorem C04_Merge_changes_only_the_receiver : forall s r a, fresh_maps s -> (r < List.length (highs s))%nat ->
+  hunits (merge_op s r a) r = uunion (hunits s r) (hunits s a) /\
+  (forall k, k <> r -> (k < List.length (highs s))%nat -> hunits (merge_op s r a) k = hunits s k) /\
+  (forall j, (j < n_units s)%nat -> nth j (heap (merge_op s r a)) [] = nth j (heap s) []).
+Proof. exact merge_op_isolated. Qed.
+Print Assumptions C04_Merge_changes_only_the_receiver.
 
 Theorem C04_Merge_appends_lowIDs : forall s r a, (r < List.length (highs s))%nat ->
   g_low (nth r (highs (merge_op s r a)) high0) = (g_low (nth r (highs s) high0) ++ g_low (nth a (highs s) high0))%list /\
@@ -230,7 +280,7 @@ Example C04_helper_sequence :
   let sts := run_ops (init_st ex_units ex_highs) ex_ops in
   let fin := last sts (init_st [] []) in
   is_dense fin 7 = true /\ is_dense fin 8 = true /\ is_dense fin 0 = false /\ List.length (hunits fin 0) = 7%nat /\
-  script_prop ex_units ex_highs ex_ops (script_model ex_units ex_highs ex_ops) = true.
+  script_prop ex_units ex_highs ex_ops [(O, 5, 3, 4)] (script_model ex_units ex_highs ex_ops [(O, 5, 3, 4)]) = true.
 Proof. exact ex_sequence. Qed.
 
 (* ---- non-vacuity ---- *)
@@ -263,7 +313,9 @@ Proof. vm_compute. reflexivity. Qed.
 (* ---- tie to the source by regeneration (DESIGN.md 4.2): ExtendedSpatialID.Higher translated from /repo's current source is ZoomCore.higher ---- *)
 From SIDGen Require Generated.
 From SID Require GenTac GenEqHigher.
-Theorem C04_generated_Higher_is_the_model : forall h x y v f hd vd,
+(* stated for 0 <= hDiff, vDiff <= 62 only: there int64(math.Pow(2, d)) = 2^d; for hDiff < 0 the Go code divides by int64(0.5) = 0 and
+   panics, for hDiff >= 63 the conversion overflows — the translation to Z.pow says nothing about the code outside this range *)
+Theorem C04_generated_Higher_is_the_model : forall h x y v f hd vd, 0 <= hd <= 62 -> 0 <= vd <= 62 ->
   Generated.ExtendedSpatialID_Higher h x y v f hd vd = GenTac.eid_tuple (ZoomCore.higher (Ids.mk h x y v f) hd vd).
-Proof. exact GenEqHigher.gen_ExtendedSpatialID_Higher_eq. Qed.
+Proof. exact (fun h x y v f hd vd _ _ => GenEqHigher.gen_ExtendedSpatialID_Higher_eq h x y v f hd vd). Qed.
 Print Assumptions C04_generated_Higher_is_the_model.
